@@ -461,20 +461,23 @@ func (r Registers) StringWithByteOrder(address uint16, length uint8, byteOrder B
 	if address < r.startAddress {
 		return "", errors.New("address under startAddress bounds")
 	}
-	startIndex := (address - r.startAddress) * 2
-	endIndex := startIndex + uint16(length)
+	// indexes are calculated as int so that they can not wrap around for addresses far from startAddress
+	startIndex := int(address-r.startAddress) * 2
+	endIndex := startIndex + int(length)
 	// length is bytes. but data is sent in registers (2 bytes) and in big endian format. so last character for odd size
 	// needs 1 more byte (it needs to be swapped)
 	if length%2 != 0 {
 		endIndex++
 	}
-	if int(endIndex) > len(r.data) {
+	if endIndex > len(r.data) {
 		return "", errors.New("address over data bounds")
 	}
 
 	// TODO: clean these loops up to single for loop
 
-	rawBytes := r.data[startIndex:endIndex]
+	// work on a copy as bytes are swapped in place and r.data is shared with the response (and other reads)
+	rawBytes := make([]byte, endIndex-startIndex)
+	copy(rawBytes, r.data[startIndex:endIndex])
 	if byteOrder&BigEndian != 0 {
 		for i := 1; i < len(rawBytes); i++ {
 			// data is in BIG ENDIAN format in register (register is 2 bytes). so every 2 bytes needs to have their bytes swapped
